@@ -83,13 +83,15 @@ def run(P, R):
         u = P.unit(q)
         us = [c for c in own_nodes(u.node) if isinstance(c, ast.Call) and call_text(c) == 'self.update_status']
         ok = len(us) == 1 and must_call(u.node, lambda c: c is us[0]) and \
-            [ast.unparse(a) for a in us[0].args] == ['identifier', arg] and \
-            us[0].lineno == max(c.lineno for c in own_nodes(u.node) if isinstance(c, ast.Call))
+            [closed_text(u, a) for a in us[0].args] in (['identifier', "info['state']"],
+                                                         ['identifier', "self.info_map[identifier]['state']"]) and \
+            (us[0].lineno, us[0].col_offset) == max((c.lineno, c.col_offset) for c in own_nodes(u.node)
+                                                     if isinstance(c, ast.Call) and 'logger' not in call_text(c).split('.'))
         R.check(r2, ok, '%s ends with update_status(identifier, %s)' % (q, arg), 'resynth|%s' % q, u.loc(),
                 '%s does not always end with update_status(identifier, %s)' % (q, arg))
         rf = [c for c in own_nodes(u.node) if isinstance(c, ast.Call) and call_text(c) == 'self.reset_forced_state']
         ok = len(rf) == 1 and must_call(u.node, lambda c: c is rf[0]) and \
-            [ast.unparse(a) for a in rf[0].args] == ([reset] if reset else []) and rf[0].lineno < us[0].lineno
+            [ast.unparse(a) for a in rf[0].args] == ([reset] if reset else []) and (rf[0].lineno, rf[0].col_offset) < (us[0].lineno, us[0].col_offset)
         R.check(r2, ok, '%s dismisses a forced state on new information' % q, 'resynth|%s|reset' % q, u.loc(),
                 '%s does not always call reset_forced_state(%s) before the synthesis' % (q, reset or ''))
     for q in ('ProcessStatus.add_info', 'ProcessStatus.update_info'):
@@ -109,7 +111,7 @@ def run(P, R):
     idf = [a for a in own_nodes(u.node) if isinstance(a, ast.Assign) and ast.unparse(a.targets[0]) == 'info']
     ok = len(ns) == 1 and ast.unparse(ns[0].value) == "info['state']" and len(up) == 1 and \
         ast.unparse(up[0].args[0]) == 'payload' and len(idf) == 1 and ast.unparse(idf[0].value) == 'self.info_map[identifier]' \
-        and up[0].lineno < ns[0].lineno
+        and (up[0].lineno, up[0].col_offset) < (ns[0].lineno, ns[0].col_offset)
     R.check(r2, ok, 'the report updates the entry of its own instance, then its state is synthesised',
             'resynth|update_info|entry', u.loc(), 'update_info does not merge the payload into info_map[identifier] and '
             'synthesise its state')
